@@ -795,6 +795,12 @@ func (s *Scanner) checkUnionInjection(stmt *ast.SetOperation, result *ScanResult
 					nullCount++
 				}
 			}
+			// the parser represents NULL as a literal, not as an identifier
+			if lit, ok := col.(*ast.LiteralValue); ok {
+				if lit.Value == nil || strings.EqualFold(lit.Type, "null") {
+					nullCount++
+				}
+			}
 		}
 
 		// Multiple NULLs in UNION SELECT is suspicious
@@ -812,8 +818,16 @@ func (s *Scanner) checkUnionInjection(stmt *ast.SetOperation, result *ScanResult
 		}
 
 		// Check for system table access using precise matching
-		if rightSelect.TableName != "" {
-			if s.isSystemTable(rightSelect.TableName) {
+		// the parser records the tables of a SELECT in From; TableName is
+		// only set for the simplest single-table form
+		systemTable := rightSelect.TableName != "" && s.isSystemTable(rightSelect.TableName)
+		for _, ref := range rightSelect.From {
+			if ref.Name != "" && s.isSystemTable(ref.Name) {
+				systemTable = true
+			}
+		}
+		if systemTable {
+			{
 				finding := Finding{
 					Severity:    SeverityCritical,
 					Pattern:     PatternUnionBased,
